@@ -607,6 +607,24 @@ func (ev *SpecEnv) callExpr(x *ast.CallExpr) (Val, types.Type) {
 	case "pow2":
 		need(1)
 		return UConst{Pow2(ev.constArg(x.Args[0]))}, nil
+	case "beval":
+		// beval(s): the unsigned big-endian value of byte slice s (uninterpreted over contents, offset, length)
+		need(1)
+		v, _ := ev.eval(x.Args[0])
+		sv, ok := v.(SliceV)
+		if !ok {
+			ev.fail("beval of non-slice")
+		}
+		if sv.Region == nil {
+			return Scalar{IntC(0)}, nil
+		}
+		mem := ev.heapMem(sv.Region)
+		ev.ex.Funs["0uf_beval"] = fmt.Sprintf("(declare-fun beval (%s Int Int) Int)", mem.S)
+		return Scalar{App("beval", IntSort, mem, sv.Off, sv.Len)}, nil
+	case "pow2n":
+		// pow2n(n, max): 2^n for a symbolic 0 <= n < max (1 outside that range)
+		need(2)
+		return Scalar{ev.ex.pow2Term(ev.intTerm(x.Args[0]), ev.constArg(x.Args[1]))}, nil
 	case "abs":
 		need(1)
 		return Scalar{IAbs(ev.intTerm(x.Args[0]))}, nil
